@@ -16,6 +16,9 @@ CHECKS = {
    "Ended status from the H1 log / snapshot; machines come from the harness generators.", "DESIGN.md §6 C04"),
 }
 
+CHECKS["C05"] = ("fwsim", "exploration", "deterministic simulation: lock-step refinement of the real Framework against an executable reference semantics under fault-injected histories, plus twin/clone replay determinism",
+   "Every call of every simulated history is compared (actions, current state, counters, remaining limit) with an independent executable reference of the stated semantics; original, identically-built twin and mid-history clone must agree forever. Seeded search incl. a densely sampled small scope; not exhaustive.",
+   "Reference semantics hand-written from documentation + property statements (mirrors code where those are silent); Dist::sample trusted as a leaf; comparisons within 1e-12 of a fraction limit are skipped.", "DESIGN.md §5, §6 C05")
 NOT_YET = {}
 NA = {
  "C12": "pure predicate over one machine value: no history, clock, random draw, interleaving or stored-byte fault takes part in deciding whether validation accepts a value; deciding it is input generation (property-based testing), not deterministic simulation (DESIGN.md §7)",
